@@ -183,9 +183,9 @@ func (e *Engine) checkPost(fr *Frame, con *Contract, ci int, sc *SpecCase, o Out
 		if !hasTag(cl.Tags, e.curTags) {
 			continue
 		}
-		g := ctx.boolean(cl.E)
+		g, note := ctx.goal(cl.E)
 		name := fmt.Sprintf("%s/post#%d", key, cl.Ord)
-		e.addObl(o.st, name, "post", cl.Tags, g, "postcondition: "+cl.Text, fmt.Sprintf("%s:%d", shortFile(cl.File), cl.Line))
+		e.addObl(o.st, name, "post", cl.Tags, g, "postcondition: "+cl.Text+note, fmt.Sprintf("%s:%d", shortFile(cl.File), cl.Line))
 	}
 	if ci == 0 {
 		e.checkFrame(fr, con, o, old, key, ctx)
